@@ -540,6 +540,16 @@ pub fn read_store(files: &Files) -> Result<Reconstructed, String> {
 pub enum ROp {
     Append(Vec<crate::model::Blk>),
     Clear { a: u16, n: u8 },
+    /// n one-byte blocks (multi-page bitfields, deep trees)
+    BigAppend(u32),
+}
+
+fn rop_blocks(op: &ROp, base: u64) -> Option<Vec<Vec<u8>>> {
+    match op {
+        ROp::Append(bs) => Some(bs.iter().map(|b| b.bytes()).collect()),
+        ROp::BigAppend(n) => Some((0..*n as u64).map(|i| vec![((base + i) % 251) as u8]).collect()),
+        ROp::Clear { .. } => None,
+    }
 }
 
 #[derive(Clone, Debug, PartialEq, Eq, Hash, serde::Serialize, serde::Deserialize)]
@@ -644,13 +654,13 @@ pub fn synthesize(desc: &StoreDesc, sk_seed: &[u8; 32]) -> Synth {
         }
         let folded = k < f;
         match op {
-            ROp::Append(bs) => {
-                if bs.is_empty() {
+            ROp::Append(_) | ROp::BigAppend(_) => {
+                let blocks = rop_blocks(op, fold.model.len()).unwrap();
+                if blocks.is_empty() {
                     continue;
                 }
                 let from = fold.model.len();
-                for b in bs {
-                    let bytes = b.bytes();
+                for bytes in blocks {
                     fold.tree.append(&bytes);
                     // data is written at the block's byte offset (a truncated tail is re-extended with zeros)
                     let off = fold.model.byte_length as usize;
@@ -741,6 +751,7 @@ pub fn synthesize(desc: &StoreDesc, sk_seed: &[u8; 32]) -> Synth {
         for (k, op) in desc.ops.iter().enumerate() {
             let produces_entry = match op {
                 ROp::Append(bs) => !bs.is_empty(),
+                ROp::BigAppend(n) => *n > 0,
                 ROp::Clear { .. } => !expected.is_empty(),
             };
             if k >= f && produces_entry {
@@ -750,7 +761,7 @@ pub fn synthesize(desc: &StoreDesc, sk_seed: &[u8; 32]) -> Synth {
                 entry_ops += 1;
             }
             match op {
-                ROp::Append(bs) => bs.iter().for_each(|b| expected.append(b.bytes())),
+                ROp::Append(_) | ROp::BigAppend(_) => rop_blocks(op, expected.len()).unwrap().into_iter().for_each(|b| expected.append(b)),
                 ROp::Clear { a, n } => {
                     let len = expected.len();
                     if len > 0 {
